@@ -102,7 +102,7 @@ func typeIdentical(x, y types.Type, p *ifacePair) bool {
 				for i := 0; i < x.NumFields(); i++ {
 					f := x.Field(i)
 					g := y.Field(i)
-					if f.Embedded() != g.Embedded() || !sameID(f, g.Pkg(), g.Name()) || !typeIdentical(f.Type(), g.Type(), p) {
+					if f.Embedded() != g.Embedded() || x.Tag(i) != y.Tag(i) || !sameID(f, g.Pkg(), g.Name()) || !typeIdentical(f.Type(), g.Type(), p) {
 						return false
 					}
 				}
